@@ -63,6 +63,9 @@ CHECKS = {
  "C16": ("model_checking", "explicit-state exploration of all event histories with one mismatching or ill-typed policy on the real actors",
          "For every follower with a different program or leader field and every party with an ill-typed program (n=2,3, every leader in thorough), all histories are enumerated; both schedule calls end in an error, zero MPC messages are ever issued, nobody is sent a successful result, permits are back.",
          "two self-declared leaders are out of scope", "4.C16", "E4"),
+ "C17": ("model_checking", "enumeration of histories of policy batches sharing a semaphore on the real actors: default and reverse order, every single coordination RPC failed once, cancels at spaced positions",
+         "Batches of k two-party policies with alternating leaders (k<=4 quick, <=8 thorough; concurrency 1..3) are run on the real actors; the MPC-traffic intervals of the computations a party leads never overlap beyond its concurrency, the full budget is back and everything stopped at the end, and after each single failed validate/run/consts RPC the policy ends at the caller with an error notification and its permit returned.",
+         "walks around the default order rather than all interleavings of a batch; two parties", "4.C17", "E4"),
 }
 
 NOT_YET = "check not built yet (construction in progress, see DESIGN.md section 8)"
